@@ -48,6 +48,30 @@ class KwargsLearner(Learner):
         self.n += 1
 
 
+class InfoLearner(Learner):
+    """Stateful round-robin learner that adds columns through CobaContext.learning_info (the documented way)."""
+    def __init__(self):
+        self.n = 0
+
+    @property
+    def params(self): return {'family': 'InfoLearner'}
+
+    def predict(self, context, actions):
+        from coba.context import CobaContext
+        CobaContext.learning_info['n_pred'] = self.n
+        return actions[self.n % len(actions)]
+
+    def score(self, context, actions, action):
+        from coba.context import CobaContext
+        CobaContext.learning_info['n_score'] = self.n
+        return 1.0 if action == actions[self.n % len(actions)] else 0.0
+
+    def learn(self, context, action, reward, probability, **kw):
+        from coba.context import CobaContext
+        self.n += 1
+        CobaContext.learning_info['n_learn'] = self.n
+
+
 class CountingEvaluator(Evaluator):
     """Custom evaluator: deterministic rows from the interaction order plus the learner's choices (uses the experiment seed)."""
     def __init__(self, tag='count'):
@@ -91,6 +115,14 @@ def build(shape):
         return ('cross', _syn(4, 1) + _syn(4, 4), [PmfLearner(), KwargsLearner()], SequentialCB(record=['reward', 'action', 'probability']))
     if shape == 'S6':
         return ('cross', _syn(4, 1).cache().shuffle(n=2), [PmfLearner('a'), RandomLearner(seed=1)], [CountingEvaluator(), SequentialCB()])
+    if shape == 'S7':   # a RejectionCB evaluation (leaves learning_info behind) next to learners that write learning_info
+        lg = _syn(6, 3).logged(RandomLearner(seed=7))[0]
+        e1 = _syn(4, 1)[0]
+        return ('triples', [(lg, BanditEpsilonLearner(0.1, seed=2), RejectionCB(seed=11)), (e1, InfoLearner(), SequentialCB()), (lg, InfoLearner(), RejectionCB(seed=5)), (e1, RandomLearner(seed=3), SequentialCB())])
+    if shape == 'S8':   # one environment, one stateful learner, several evaluators
+        return ('cross', _syn(5, 1), [InfoLearner()], [SequentialCB(), SequentialCB(record=['action', 'reward'])])
+    if shape == 'S9':   # the same behind a chunk (both evaluations end up in one chunk)
+        return ('cross', _syn(5, 2).chunk(), [InfoLearner(), BanditEpsilonLearner(0.3, seed=6)], [SequentialCB(), SequentialCB(record=['action', 'reward', 'probability'])])
     raise ValueError(shape)
 
 
